@@ -52,6 +52,7 @@ class Assembly:
         self.fns = []          # extracted function records
         self.items = []
         self.rewrites = []     # (rule, file, line, what)
+        self.links = []        # callee contracts linked to the unit that proves them
         self._src = {}
 
     def src(self, rel):
@@ -482,6 +483,37 @@ def _load_template(path, depth=0):
     return out
 
 
+def linked_spec(path, fname, cont=None):
+    """the //@spec lines of the //@fn block that emits `fname` in another unit's template"""
+    if not os.path.exists(path):
+        raise ScanError('template error: linked unit %s missing' % path)
+    L = [l for l, _ in _load_template(path)]
+    for i, ln in enumerate(L):
+        t = ln.strip()
+        if not t.startswith('//@fn '):
+            continue
+        last = t.split('::')[-1].split()
+        name = last[0]
+        for w in last[1:]:
+            if w.startswith('as='):
+                name = w[3:]
+        if name != fname:
+            continue
+        if cont is not None and cont not in t:
+            continue
+        spec = []
+        j = i + 1
+        while L[j].strip() != '//@end':
+            if L[j].strip().startswith('//@spec'):
+                k = j + 1
+                while not L[k].strip().startswith('//@/spec'):
+                    spec.append(L[k])
+                    k += 1
+                return spec
+            j += 1
+    raise ScanError('template error: no //@fn block emitting %s with a //@spec in %s' % (fname, path))
+
+
 def assemble(repo, template_path):
     asm = Assembly(repo, template_path)
     loaded = _load_template(template_path)
@@ -504,6 +536,27 @@ def assemble(repo, template_path):
         elif s.startswith('//@item '):
             process_item(asm, s[len('//@item '):], i + 1)
             i += 1
+        elif s.startswith('//@stub '):
+            # //@stub <unit> :: <fn (emitted) name>  + signature lines + //@end
+            # A callee proved in another unit: emitted external_body with the requires/ensures text taken
+            # from the proving unit's //@spec block, so what is assumed here is what is proved there.
+            parts_ = [x.strip() for x in s[len('//@stub '):].split(' :: ')]
+            unit, fname = parts_[0], parts_[-1]
+            cont = parts_[1] if len(parts_) > 2 else None
+            j = i + 1
+            sig = []
+            while j < len(lines) and lines[j].strip() != '//@end':
+                sig.append(lines[j])
+                j += 1
+            spec = linked_spec(os.path.join(os.path.dirname(template_path), unit + '.v.rs'), fname, cont)
+            asm.out.append(('#[verifier::external_body] // linked: proved in unit %s (%s)' % (unit, fname), ('tmpl', i + 1)))
+            for ln in sig:
+                asm.out.append((ln, ('tmpl', i + 1)))
+            for ln in spec:
+                asm.out.append((ln, ('link', unit, fname)))
+            asm.out.append(('    { unimplemented!() }', ('tmpl', i + 1)))
+            asm.links.append(dict(assumed_in=os.path.basename(template_path)[:-5], proved_in=unit, function=fname))
+            i = j + 1
         else:
             asm.out.append((ln, ('tmpl', i + 1)))
             i += 1
